@@ -198,7 +198,11 @@ def build_inputs(case, d):
     right = base[:, :, 3 + shift:3 + shift + cols].copy()
     noise = r.rand(nb, rows, cols) < 0.1
     right[noise] = r.randint(0, 256, int(noise.sum()))
-    crs, tr = (("EPSG:32631", Affine(0.5, 0.0, 350000.0, 0.0, -0.5, 4800000.0)) if case["georef"] else (None, None))
+    # georeferenced pairs: north-up, south-up or rotated / sheared geotransforms (any affine transform is "the input
+    # georeferencing")
+    geo = [Affine(0.5, 0.0, 350000.0, 0.0, -0.5, 4800000.0), Affine(0.5, 0.0, 350000.0, 0.0, 0.5, 4800000.0),
+           Affine(0.5, 0.125, 350000.0, 0.0625, -0.5, 4800000.0), Affine(-0.25, 0.0, 350000.0, 0.0, -0.25, 4800000.0)]
+    crs, tr = (("EPSG:32631", geo[case["seed"] % len(geo)]) if case["georef"] else (None, None))
     nod = case["nodata"]
     if nod is not None:
         hole = r.rand(rows, cols) < 0.05
@@ -207,7 +211,7 @@ def build_inputs(case, d):
     write_tif(os.path.join(d, "left.tif"), left, "float32", crs, tr, bands)
     # the right image of a georeferenced pair is georeferenced on its own (one pixel to the east of the left one): every
     # right product must carry the RIGHT image's transform
-    tr_right = Affine(tr.a, tr.b, tr.c + tr.a, tr.d, tr.e, tr.f) if tr is not None else None
+    tr_right = Affine(tr.a, tr.b, tr.c + tr.a, tr.d, tr.e, tr.f + tr.d) if tr is not None else None
     write_tif(os.path.join(d, "right.tif"), right, "float32", crs, tr_right, bands)
     inp = {"left": {"img": os.path.join(d, "left.tif")}, "right": {"img": os.path.join(d, "right.tif")}}
     if nod is not None:
